@@ -24,6 +24,18 @@ pub use remote::{
 };
 pub(crate) use validation::validate_config_semantics;
 
+#[cfg(feature = "verif-hooks")]
+pub use extends::{ExtendsResolver, MAX_EXTENDS_DEPTH};
+#[cfg(feature = "verif-hooks")]
+pub use merge::{
+    has_any_reset_markers, is_reset_element, merge_arrays, merge_toml_values, strip_reset_markers,
+    validate_reset_positions,
+};
+#[cfg(feature = "verif-hooks")]
+pub use remote::{HttpClient, compute_content_hash, fetch_remote_config_with_client};
+#[cfg(feature = "verif-hooks")]
+pub use validation::validate_config_semantics as verif_validate_config_semantics;
+
 #[cfg(test)]
 mod tests {
     use super::*;
